@@ -121,6 +121,9 @@ class Term:
         # Now copy the content of t onto self
         self.__dict__.update(t.__dict__)
 
+        # The identity token must be that of the new object, not of t
+        self._id = id(self)
+
     def is_svar(self) -> bool:
         return self.ty == Term.SVAR
 
